@@ -7,6 +7,7 @@ func init() {
 		ID:    "C07",
 		Title: "Each @component use renders the component file with its own arguments and slots",
 		Rules: []string{
+			"R-SHARED (load history): nothing a load writes is read by a later load, except the configuration",
 			"R-DELIM (brace nesting): where the lexer builds a { or } token the nesting counter is stepped on every path",
 			"R-LOADERR: a failure while parsing and linking the templates ends NewTemplate with that error (not kept for later)",
 			"R-LOADALL: in the loader's loop a program is registered only after both linkers ran (must-pass-through), and a pass ends by registering, by failing or over the HasReserveStmt() edge",
@@ -28,6 +29,10 @@ func init() {
 		NotDecided:  "TODO",
 		Assumptions: trustedBase,
 		Run: func(m *Model, s *Sink) {
+			m.RunSharedWrites(s, "R-SHARED", m.Roots().Load, "history", map[string]string{
+				"textwire.userConfig":    "NewTemplate/Configure install the caller's configuration (documented, sticky by design)",
+				"textwire.usesTemplates": "NewTemplate switches the package to template mode",
+			}) // what one load leaves behind must not reach the next: a component file is read when the templates are loaded
 			m.RunBraceCount(s, "R-DELIM")    // the argument of a use is an object literal: nested closing braces are not the end of code
 			m.RunLoadErr(s, "R-LOADERR")     // what is wrong with a use is reported when the templates are loaded: a failure of the load ends NewTemplate with an error
 			m.RunLoadAll(s, "R-LOADALL")     // a page that uses a layout and components has both linked
